@@ -168,6 +168,9 @@ F(i) == CASE i.kind = "hwmon" -> HwOut(i)
           [] i.kind = "stat" -> StatOut(i)
 
 (* ======================= the enumerated input space ====================== *)
+(* The big sets take the (dummy) parameter w = Wide so that TLC evaluates    *)
+(* them only for the input families a configuration selects, not eagerly    *)
+(* as constant definitions.                                                 *)
 Temps == TempVals \cup {0 - v : v \in NegTemps}
 Nums(V) == {Num(v) : v \in V}
 Seqs1(S) == {<<a>> : a \in S}
@@ -178,7 +181,7 @@ ReadingFiles == {Absent, Unread} \cup Nums(Temps)
 ThreshFiles == {Absent, Unread, Junk} \cup Nums(Temps)
 LabelSet == IF Wide THEN {"absent", "Core 0", "unreadable"} ELSE {"absent", "Core 0"}
 \* every presence subset of {input, label, max, crit} x content class x value
-FullTemps == [input : ReadingFiles, max : ThreshFiles, crit : ThreshFiles, label : LabelSet]
+FullTemps(w) == [input : ReadingFiles, max : ThreshFiles, crit : ThreshFiles, label : LabelSet]
 
 T(i, m, c, l) == [input |-> i, max |-> m, crit |-> c, label |-> l]
 TA1 == T(Num(45000), Num(100000), Absent, "Core 0")       \* critical filled from high
@@ -204,23 +207,24 @@ TempSeqs == {<<>>} \cup Seqs1(TArch) \cup Seqs2(TArch)
 FanSeqs == {<<>>} \cup Seqs1(FArch) \cup Seqs2(FArch)
 SmallTempSeqs == {<<>>, <<TA1>>, <<TA2>>, <<TA1, TA2>>}
 SmallChips == {Chip(n, p[1], p[2], ts, fs) : n \in Names, p \in Placings, ts \in SmallTempSeqs, fs \in {<<>>, <<FA1>>}}
-TempChips == {Chip(n, p[1], p[2], ts, fs) : n \in Names, p \in Placings, ts \in TempSeqs, fs \in {<<>>, <<FA1>>}}
-FanChips == {Chip(n, p[1], p[2], ts, fs) : n \in Names, p \in Placings, ts \in {<<>>, <<TA1>>}, fs \in FanSeqs}
-OneFull == {Chip("coretemp", p[1], p[2], <<s>>, <<>>) : p \in {<<"direct", FALSE>>, <<"device", FALSE>>}, s \in FullTemps}
-TwoFull == IF Wide
-           THEN {Chip("k10temp", "direct", FALSE, <<s, t>>, <<>>) :
-                   s \in [input : {Unread, Num(45000)}, max : ThreshFiles, crit : {Absent, Num(100000)}, label : {"absent"}],
-                   t \in [input : {Absent, Num(1000)}, max : {Absent, Junk, Num(0)}, crit : ThreshFiles, label : {"Core 0"}]}
-           ELSE {}
+TempChips(w) == {Chip(n, p[1], p[2], ts, fs) : n \in Names, p \in Placings, ts \in TempSeqs, fs \in {<<>>, <<FA1>>}}
+FanChips(w) == {Chip(n, p[1], p[2], ts, fs) : n \in Names, p \in Placings, ts \in {<<>>, <<TA1>>}, fs \in FanSeqs}
+SecondChips(w) == IF w THEN {Chip("nct6775", p[1], p[2], ts, <<>>) : p \in Placings, ts \in TempSeqs} ELSE SmallChips
+OneFull(w) == {Chip("coretemp", p[1], p[2], <<s>>, <<>>) : p \in {<<"direct", FALSE>>, <<"device", FALSE>>}, s \in FullTemps(w)}
+TwoFull(w) == IF w
+              THEN {Chip("k10temp", "direct", FALSE, <<s, t>>, <<>>) :
+                      s \in [input : {Unread, Num(45000)}, max : ThreshFiles, crit : {Absent, Num(100000)}, label : {"absent"}],
+                      t \in [input : {Absent, Num(1000)}, max : {Absent, Junk, Num(0)}, crit : ThreshFiles, label : {"Core 0"}]}
+              ELSE {}
 
 Zone(ty, t, tr) == [type |-> ty, temp |-> t, trips |-> tr]
 Hw(d, cs, zd, zs) == [kind |-> "hwmon", hwdir |-> d, chips |-> cs, tzdir |-> zd, zones |-> zs]
 ZA == Zone("acpitz", Num(45000), <<[type |-> "critical", temp |-> Num(100000)]>>)
 
-HwInputs ==
+HwInputs(w) ==
      {Hw(d, <<>>, z, <<>>) : d \in BOOLEAN, z \in BOOLEAN}                       \* no sensors at all
-  \cup {Hw(TRUE, <<c>>, FALSE, <<>>) : c \in OneFull \cup TwoFull \cup TempChips \cup FanChips}
-  \cup {Hw(TRUE, <<c, d>>, FALSE, <<>>) : c \in SmallChips, d \in (IF Wide THEN TempChips ELSE SmallChips)}
+  \cup {Hw(TRUE, <<c>>, FALSE, <<>>) : c \in OneFull(w) \cup TwoFull(w) \cup TempChips(w) \cup FanChips(w)}
+  \cup {Hw(TRUE, <<c, d>>, FALSE, <<>>) : c \in SmallChips, d \in SecondChips(w)}
   \cup {Hw(TRUE, <<c>>, TRUE, <<ZA>>) : c \in SmallChips}                        \* hwmon and thermal side by side
 
 \* ---- thermal zones (hwmon exposes no temperature sensor) ----
@@ -229,16 +233,16 @@ TripSet == {Trip("critical", Num(100000)), Trip("critical", Junk), Trip("high", 
             Trip("passive", Num(70000)), Trip("active", Num(60000))}
            \cup (IF Wide THEN {Trip("critical", Num(0)), Trip("high", Num(0)), Trip("passive", Junk)} ELSE {})
 AtMostOne(tr, ty) == Cardinality({k \in 1..Len(tr) : tr[k].type = ty}) <= 1
-TripSeqs == {tr \in {<<>>} \cup Seqs1(TripSet) \cup Seqs2(TripSet) \cup Seqs3(TripSet) :
-               AtMostOne(tr, "critical") /\ AtMostOne(tr, "high")}
+TripSeqs(w) == {tr \in {<<>>} \cup Seqs1(TripSet) \cup Seqs2(TripSet) \cup Seqs3(TripSet) :
+                  AtMostOne(tr, "critical") /\ AtMostOne(tr, "high")}
 ZoneTempFiles == {Absent, Unread, Num(45000)} \cup (IF Wide THEN Nums(Temps) ELSE {})
 FanOnly == Chip("nct6775", "direct", FALSE, <<>>, <<FA1>>)
 ZB == Zone("x86_pkg_temp", Num(1000), <<>>)
 ZC == Zone("acpitz", Unread, <<Trip("critical", Num(100000))>>)
 ZD == Zone("acpitz", Num(100000), <<Trip("passive", Num(70000)), Trip("critical", Num(100000))>>)
-ThermalInputs ==
-     {Hw(d, <<>>, TRUE, <<Zone("acpitz", t, tr)>>) : d \in BOOLEAN, t \in ZoneTempFiles, tr \in TripSeqs}
-  \cup {Hw(TRUE, <<FanOnly>>, TRUE, <<Zone("acpitz", Num(45000), tr)>>) : tr \in TripSeqs}
+ThermalInputs(w) ==
+     {Hw(d, <<>>, TRUE, <<Zone("acpitz", t, tr)>>) : d \in BOOLEAN, t \in ZoneTempFiles, tr \in TripSeqs(w)}
+  \cup {Hw(TRUE, <<FanOnly>>, TRUE, <<Zone("acpitz", Num(45000), tr)>>) : tr \in TripSeqs(w)}
   \cup {Hw(FALSE, <<>>, TRUE, <<y, z>>) : y \in {ZA, ZB, ZC, ZD}, z \in {ZA, ZB, ZC, ZD}}
 
 \* ---- power supplies ----
@@ -250,16 +254,16 @@ Acs == {[name |-> "none", online |-> 0]} \cup [name : {"AC0", "AC"}, online : {0
 NowVals == {NoO, O(40)} \cup (IF Wide THEN {O(0), O(90)} ELSE {})
 PowerVals == {NoO, O(0), O(30)} \cup (IF Wide THEN {O(7)} ELSE {})
 \* a battery the kernel describes well enough to have a percentage
-Bats == {b \in [layout : {"energy", "charge"}, now : NowVals, full : {NoO, O(80)}, power : PowerVals,
-                capacity : {NoO, O(57)}, tte : {NoO, O(30)}, status : Statuses] :
-           (Known(b.now) /\ Known(b.full)) \/ Known(b.capacity)}
+Bats(w) == {b \in [layout : {"energy", "charge"}, now : NowVals, full : {NoO, O(80)}, power : PowerVals,
+                   capacity : {NoO, O(57)}, tte : {NoO, O(30)}, status : Statuses] :
+              (Known(b.now) /\ Known(b.full)) \/ Known(b.capacity)}
 B1 == Bat("energy", O(40), O(80), O(30), O(50), NoO, "Discharging")
 B2 == Bat("charge", O(90), O(80), NoO, NoO, NoO, "Full")
 Ps(d, bs, ac) == [kind |-> "battery", psdir |-> d, bats |-> bs, ac |-> ac]
-BatInputs ==
+BatInputs(w) ==
      {Ps(d, <<>>, [name |-> "none", online |-> 0]) : d \in BOOLEAN}              \* no power-supply class / empty
   \cup {Ps(TRUE, <<>>, a) : a \in Acs}                                           \* a desktop: adapter only
-  \cup {Ps(TRUE, <<b>>, a) : b \in Bats, a \in Acs}
+  \cup {Ps(TRUE, <<b>>, a) : b \in Bats(w), a \in Acs}
   \cup {Ps(TRUE, <<b, c>>, a) : b \in {B1, B2}, c \in {B1, B2}, a \in Acs}
 
 \* ---- cpufreq ----
@@ -268,36 +272,38 @@ CurVals == {800000, 2400000} \cup (IF Wide THEN {2399987} ELSE {})
 OnModes == {"scaling", "cpuinfo_cur", "both"}
 AllModes == OnModes \cup {"offline-nodir", "offline-dir"}
 CpuAt(k, ms) == {Cpu(c, 400000 + 1000 * k, 3000000 + 100000 * k, m) : c \in CurVals, m \in ms}
-CpuSeqs == UNION { {<<a>> : a \in CpuAt(0, OnModes)},
+CpuSeqs(w) == UNION { {<<a>> : a \in CpuAt(0, OnModes)},
                    IF MaxCpus >= 2 THEN {<<a, b>> : a \in CpuAt(0, OnModes), b \in CpuAt(1, AllModes)} ELSE {},
                    IF MaxCpus >= 3 THEN {<<a, b, c>> : a \in CpuAt(0, OnModes), b \in CpuAt(1, AllModes), c \in CpuAt(2, AllModes)} ELSE {},
-                   IF MaxCpus >= 4 THEN {<<a, b, c, d>> : a \in CpuAt(0, {"scaling"}), b \in CpuAt(1, AllModes),
+                   IF MaxCpus >= 4 THEN {<<a, b, c, d>> : a \in CpuAt(0, {"scaling"}), b \in CpuAt(1, {"scaling", "offline-nodir", "offline-dir"}),
                                                            c \in CpuAt(2, {"both", "offline-dir"}), d \in CpuAt(3, AllModes)} ELSE {} }
 Fq(v, l, cs, m) == [kind |-> "freq", variant |-> v, layout |-> l, cpus |-> cs, mhz |-> m]
-PlainSeqs == {cs \in CpuSeqs : \A k \in 1..Len(cs) : cs[k].mode \in {"scaling", "offline-nodir"}}
-FreqInputs ==
-     {Fq("sysfs", l, cs, m) : l \in {"policy", "percpu"}, cs \in CpuSeqs, m \in BOOLEAN}
-  \cup {Fq("cpuinfo", "none", cs, m) : cs \in PlainSeqs, m \in BOOLEAN}
+PlainSeqs(w) == {cs \in CpuSeqs(w) : \A k \in 1..Len(cs) : cs[k].mode \in {"scaling", "offline-nodir"}}
+\* one machine shows one offline behaviour (the directory goes, or it stays without *_cur_freq)
+Coherent(cs) == ~(\E k \in 1..Len(cs) : cs[k].mode = "offline-nodir") \/ ~(\E k \in 1..Len(cs) : cs[k].mode = "offline-dir")
+FreqInputs(w) ==
+     {Fq("sysfs", l, cs, m) : l \in {"policy", "percpu"}, cs \in {x \in CpuSeqs(w) : Coherent(x)}, m \in BOOLEAN}
+  \cup {Fq("cpuinfo", "none", cs, m) : cs \in PlainSeqs(w), m \in BOOLEAN}
 
 \* ---- cpu_count ----
-CountInputs ==
+CountInputs(w) ==
   {i \in [kind : {"count"}, pk : 1..2, cores : 1..2, threads : 1..2, offline : 0..1,
           sysconf : BOOLEAN, proc : BOOLEAN, statcpus : BOOLEAN,
           topo : {"core_cpus", "siblings", "both", "none"}, physid : BOOLEAN] :
      /\ (i.offline = 1 => i.threads = 2)        \* the offline CPU is a second hardware thread: cores unchanged
      /\ (i.physid => i.proc)                    \* physical id / cpu cores come with the x86 processor blocks
-     /\ (i.statcpus \/ Wide) }
+     /\ (i.statcpus \/ w) }
 
 \* ---- /proc/stat ----
 StatInputs == [kind : {"stat"}, ctxt : {0, 7}, intr : {0, 8}, softirq : {0, 9}, btime : {1, 1000}, ncpu : 1..3]
 
 Pending == [pending |-> TRUE]
 
-Init == /\ \/ ("hwmon" \in Kinds /\ inp \in HwInputs)
-           \/ ("thermal" \in Kinds /\ inp \in ThermalInputs)
-           \/ ("battery" \in Kinds /\ inp \in BatInputs)
-           \/ ("freq" \in Kinds /\ inp \in FreqInputs)
-           \/ ("count" \in Kinds /\ inp \in CountInputs)
+Init == /\ \/ ("hwmon" \in Kinds /\ inp \in HwInputs(Wide))
+           \/ ("thermal" \in Kinds /\ inp \in ThermalInputs(Wide))
+           \/ ("battery" \in Kinds /\ inp \in BatInputs(Wide))
+           \/ ("freq" \in Kinds /\ inp \in FreqInputs(Wide))
+           \/ ("count" \in Kinds /\ inp \in CountInputs(Wide))
            \/ ("stat" \in Kinds /\ inp \in StatInputs)
         /\ out = Pending
         /\ ev = [op |-> "init"]
